@@ -46,6 +46,14 @@ pub(crate) fn line_partition(
                 next_links.extend(new_links);
             }
 
+            // A line ends when it is back at the node it started from: paths
+            // in the host are only walked until they return to their start
+            // (see `walk_path`). The remaining links of the start node start
+            // lines of their own.
+            if curr_node == graph.port_node(curr_line[0].0).unwrap() {
+                break;
+            }
+
             // Get the next link to visit
             let next_port = {
                 let offset = graph.port_offset(last_port).unwrap();
